@@ -15,7 +15,7 @@ RULE = (
     "byte-continuation lines), each evaluated in all 2x2x2 combinations of return mode (bool/list), search mode (first/all) and address-only flag - "
     "exhaustive over the modes. Oracle (internal consistency, no reference): bool == (list non-empty) within each (search, address-only) cell; all four "
     "bool results equal; first list == one-element prefix of the all list; address-only list == text before the first '::' of each full match, element by "
-    "element; an exception in one mode must be an exception in every mode. Non-trivial: found with >= 2 matches (or found by a nullable rule); distinct by canonical hash."
+    "element; an exception in one mode must be an exception in every mode. The same laws on long listings (> 64 KiB, occurrence straddling a plausible chunk size). Non-trivial: found with >= 2 matches (or found by a nullable rule); distinct by canonical hash."
 )
 ASSUMPTIONS = ["no reference model involved: the relation is agreement of JASM with itself across modes"]
 FLOORS = {"found": 0.3, "matches>=2": 0.1}
@@ -30,31 +30,18 @@ def strategy(tier):
     return broad_cases()
 
 
-def evaluate(case):
-    ev = Eval()
-    L = case["listing"]
-    text = render(att_view(L), cont=set(case.get("cont", ())))
-    macros = [SHIPPED_MACROS] if case["macros"] else None
-    cfg = {}
-    if case.get("transparent_addr_range"):
-        cfg["valid_addr_range"] = {"min": "fffffffff000", "max": "fffffffffff0"}
-        ev.tags.append("addr-range-observer")
-    if case.get("cont") and len(case["cont"]) % 2:
-        cfg["style"] = "att"
-    mn_full, op_full = case.get("flags", [False, False])
-    res = run_all_modes(jasm_io.make_doc(case["pattern"], mn_full or None, op_full or None, config=cfg or None), text, macros)
-    ev.subcases = 8
+def agree(ev, res):
+    """The agreement laws over the 8 results of one (rule, input); -> the four lists, or None if nothing more can be said."""
     kinds = {k: r[0] for k, r in res.items()}
-    ev.tags = [f"feat={f}" for f in case["features"]]
     if "inconclusive" in kinds.values():
         ev.inconclusive += 1
-        return ev
+        return None
     if len(set(kinds.values())) > 1:
         ev.dev("error-in-some-modes-only", outcomes={str(k): list(r[:2]) if r[0] == "exc" else "ok" for k, r in res.items()})
-        return ev
+        return None
     if "exc" in kinds.values():
         ev.tags.append("raises")
-        return ev
+        return None
     val = {k: r[1] for k, r in res.items()}
     bools = {(s, a): val[("bool", s, a)] for s in ("first", "all") for a in (False, True)}
     lists = {(s, a): val[("list", s, a)] for s in ("first", "all") for a in (False, True)}
@@ -71,8 +58,65 @@ def evaluate(case):
     for s in ("first", "all"):
         full, addr = lists[(s, False)], lists[(s, True)]
         if addr != [t.split("::")[0] if "::" in t else "" for t in full]:
-            ev.dev("address-only-vs-full", search=s, full=full[:4], address_only=addr[:4])
+            ev.dev("address-only-vs-full", search=s, full=[t[:80] for t in full[:4]], address_only=addr[:4])
             break
+    return lists
+
+
+def eval_zone(case):
+    """The same laws on a long listing (vlib/longlist.py): the input file is well over 64 KiB and the occurrence straddles a
+    plausible chunk size, so size-dependent short cuts (memoised runs, windowed scans) are on the path."""
+    from vlib import longlist
+
+    ev = Eval()
+    NV, _ = longlist.zone_listing(case["zone_cut"])
+    res = run_all_modes(jasm_io.make_doc(longlist.zone_rules()[case["rule"]]), render(NV), None)
+    ev.subcases = 8
+    ev.tags = ["zone-listing"]
+    lists = agree(ev, res)
+    if lists is not None and not lists[("all", False)]:
+        ev.dev("zone-occurrence-not-found", zone_cut=case["zone_cut"], rule=case["rule"])
+    ev.nontrivial = True
+    ev.keys = [("zone", case["zone_cut"], case["rule"])]
+    return ev
+
+
+def _zone_worker(case):
+    return case, eval_zone(case)
+
+
+def extra(tier, seed, rep):
+    import multiprocessing as mp
+
+    cuts = [2048, 4096, 32768] if tier == "quick" else [1024, 2048, 4096, 10000, 16384, 32768, 65536, 131072]
+    todo = [{"zone_cut": c, "rule": r} for c in sorted(cuts, reverse=True) for r in ("pair", "varlen", "ordered-or", "long")]
+    with mp.get_context("fork").Pool(16, maxtasksperchild=1) as pool:
+        for case, ev in pool.imap_unordered(_zone_worker, todo, chunksize=1):
+            rep.add_eval(case, ev)
+    rep.extra["zone_listings"] = {"cuts": cuts, "rules": 4, "modes": 8}
+
+
+def evaluate(case):
+    if "zone_cut" in case:
+        return eval_zone(case)
+    ev = Eval()
+    ev.tags = [f"feat={f}" for f in case["features"]]
+    L = case["listing"]
+    text = render(att_view(L), cont=set(case.get("cont", ())))
+    macros = [SHIPPED_MACROS] if case["macros"] else None
+    cfg = {}
+    if case.get("transparent_addr_range"):
+        cfg["valid_addr_range"] = {"min": "fffffffff000", "max": "fffffffffff0"}
+        ev.tags.append("addr-range-observer")
+    if case.get("cont") and len(case["cont"]) % 2:
+        cfg["style"] = "att"
+    mn_full, op_full = case.get("flags", [False, False])
+    res = run_all_modes(jasm_io.make_doc(case["pattern"], mn_full or None, op_full or None, config=cfg or None), text, macros)
+    ev.subcases = 8
+    lists = agree(ev, res)
+    if lists is None:
+        return ev
+    bools_first = res[("bool", "first", False)][1]
     found = bool(lists[("all", False)])
     if found:
         ev.tags.append("found")
@@ -81,5 +125,5 @@ def evaluate(case):
     if found and "" in lists[("all", False)]:
         ev.tags.append("empty-match")
     ev.nontrivial = len(lists[("all", False)]) >= 2 or (found and "" in lists[("all", False)])
-    ev.sample = {"pattern": case["pattern"], "macros": case["macros"], "stream": stream_sample(L), "all_full": lists[("all", False)][:3], "all_addr": lists[("all", True)][:3], "bool": bools[("first", False)]}
+    ev.sample = {"pattern": case["pattern"], "macros": case["macros"], "stream": stream_sample(L), "all_full": lists[("all", False)][:3], "all_addr": lists[("all", True)][:3], "bool": bools_first}
     return ev
